@@ -113,11 +113,16 @@ theorem output_ascii (cfg : Config) (hesc : cfg.esc = true) (hrep : cfg.rep = fa
     rw [← h3, h4] at hm
     simp only [Option.some.injEq] at hm
     subst hm
-    exact ofDfa_clsAscii cfg hesc _ hlab hdfs hacyc
+    exact ofDfa_clsAscii cfg hesc _ (fun e he => by
+      obtain ⟨s, hs, hl⟩ := hlab e he
+      show e.label.Plainish
+      rw [hl]; exact Expr.plainish_ofStr s hs) hdfs hacyc
   · rw [hf, h3]
     have ht := (Dfa.trie_tree_alpha st.clusters hcls).1
-    have hlab : (Dfa.trie st.clusters).PlainLabels :=
-      trie_labels (fun g => ∃ s, s ≠ [] ∧ g = Grapheme.ofStr s) st.clusters hcls hof
+    have hlab : (Dfa.trie st.clusters).PlainLabels := fun e he => by
+      obtain ⟨s, hs, hl⟩ := trie_labels (fun g => ∃ s, s ≠ [] ∧ g = Grapheme.ofStr s) st.clusters hcls hof e he
+      show e.label.Plainish
+      rw [hl]; exact Expr.plainish_ofStr s hs
     have hdfs := dfsOK_of_bounded (Dfa.trie st.clusters) (by rw [ht.init0]; exact ht.pos) (fun e he => (ht.lt e he).2)
     exact ofDfa_clsAscii cfg hesc _ hlab hdfs (trie_acyclic st.clusters hcls)
   · rw [hf]
